@@ -24,6 +24,10 @@ def sigs_of(args, r):
     return s
 
 
+def r_exp(r):
+    return int(r.get('real_expired') or 0)
+
+
 def main(tier, seed, budget):
     T = base.Timer()
     rep = base.Reporter(PID)
@@ -33,7 +37,7 @@ def main(tier, seed, budget):
     hashseeds = [0] if quick else [0, 1, 2, 3]
     deadline = time.time() + (budget or (170 if quick else 1500))
     stats = dict(worlds=0, functions=0, merged=0, mapped=0, nan_chains=0, points=0, inconclusive=0, nontrivial=set(), events=0,
-                 not_run=0)
+                 not_run=0, wall_timeouts=[], real_cap_expiries=0)
     samples = []
     pending_min = []
     for hs in hashseeds:
@@ -43,16 +47,20 @@ def main(tier, seed, budget):
             order = [c for c in order if c['nfun'] <= 700]
         with Pool(16, hashseed=hs) as pool:
             jobs = [dict(fn=JOB, args=dict(runname=c['runname'], compl=c['compl'], basis=c['basis'], P=1, seed=0, policy={'kind': 'lowest'},
-                                           run_seed=base.run_seed(seed, i), nfun=c['nfun'], hashseed=hs), timeout=1800)
+                                           run_seed=base.run_seed(seed, i), nfun=c['nfun'], hashseed=hs), timeout=420 if quick else 1800)
                     for i, c in enumerate(order)]
             njobs = len(jobs)
             ndone = 0
             for job, out in pool.imap(jobs, timeout=1800, deadline=deadline):
                 a = job['args']
                 ndone += 1
+                if out[0] == 'timeout':
+                    stats['wall_timeouts'].append([a['runname'], a['compl'], a['nfun']])
+                    continue
                 if out[0] != 'ok':
                     rep.harness_error('world %s/%d: %s %s' % (a['runname'], a['compl'], out[0], str(out[1])[-300:]))
                     continue
+                stats['real_cap_expiries'] += r_exp(out[1])
                 r = out[1]
                 stats['worlds'] += 1
                 stats['events'] += r['steps']
@@ -78,6 +86,8 @@ def main(tier, seed, budget):
                                          violation=mr.get('violation'), probs=mr.get('probs'), digest=mr.get('digest'), reproducible=okrep)
                     if not okrep:
                         rep.harness_error('violation %s did not replay' % s)
+    if len(stats['wall_timeouts']) > max(2, 0.1 * max(stats['worlds'], 1)):
+        rep.harness_error('%d configurations exceeded the wall timeout' % len(stats['wall_timeouts']))
     wall = T()
     cov = dict(
         evaluations=stats['worlds'], distinct_nontrivial=len(stats['nontrivial']),
@@ -86,7 +96,8 @@ def main(tier, seed, budget):
              'under the cap. Non-trivial = at least one function was merged into a different unique function; distinct by (basis, complexity, hash seed).'
              % 5,
         samples=samples, interleavings=1, configurations=len(cfgs), configurations_skipped_over_cap=len(skipped),
-        configurations_not_run_budget=stats['not_run'], functions_checked=stats['functions'], functions_merged=stats['merged'],
+        configurations_not_run_budget=stats['not_run'], configurations_wall_timeout=stats['wall_timeouts'],
+        real_time_cap_expiries=stats['real_cap_expiries'], functions_checked=stats['functions'], functions_merged=stats['merged'],
         functions_with_recorded_map=stats['mapped'], functions_marked_unrecoverable=stats['nan_chains'],
         oracle_points_evaluated=stats['points'], oracle_inconclusive_functions=stats['inconclusive'], hash_seeds=hashseeds,
         seam_events=stats['events'], runs_per_hour=round(3600.0 * stats['worlds'] / max(wall, 1e-9)),
